@@ -89,7 +89,10 @@ class AutoSerialize:
                     original_shape = tuple(int(cast(Any, x)) for x in original_shape)
                 return np.empty(cast(Any, original_shape), dtype=arr.dtype)
             else:
-                # For empty or 0-dimensional arrays, return an empty numpy array with the same shape
+                if arr.ndim == 0:
+                    # 0-dimensional arrays hold one value: read it
+                    return np.asarray(arr[()], dtype=arr.dtype)
+                # For empty arrays, return an empty numpy array with the same shape
                 return np.empty(arr.shape, dtype=arr.dtype)
         else:
             return cast(np.ndarray, arr[:])
